@@ -433,6 +433,12 @@ class DFContainer:
             self.locals.pop(place.id, None)
         else:
             self.locals[place.id] = port
+            # Wires that `__getitem__` cached for enclosing structs or tuples were
+            # packed from the old value of this place, so they are stale now
+            parent = place
+            while isinstance(parent, FieldAccess | TupleAccess):
+                parent = parent.parent
+                self.locals.pop(parent.id, None)
 
     def __contains__(self, place: Place) -> bool:
         return place.id in self.locals
